@@ -85,6 +85,7 @@ ALPHABETS = {
     "float": None,
     "extreme": [0, -1.5, 2.5, FMAX, -FMAX, 1e-300, 1.0],
     "infinite": [0, 1.5, float("inf"), float("-inf"), FMAX, -FMAX, 3.0],
+    "bigint": [2**53, 2**53 + 1, 2**53 + 2, 2**53 + 3, -(2**53) - 1, -(2**53) - 2, 0, 2**60 + 1],
     "binary": [0.0, 1.0],
     "numpy": "numpy",
 }
@@ -110,7 +111,7 @@ def gen_case(rng, arm, tier, k=0):
         return gen_duo(rng)
     size = rng.randint(1, 12) if arm == "synth" else rng.randint(8, 64)
     policy = rng.choice(("min", "max"))
-    alpha = rng.choice(("tiny", "small", "float", "extreme", "binary", "tiny", "float", "numpy", "infinite"))
+    alpha = rng.choice(("tiny", "small", "float", "extreme", "binary", "tiny", "float", "numpy", "infinite", "bigint"))
     length = rng.randint(1, 80 if arm == "synth" else 200)
     w_put = rng.choice((1, 2, 4))
     w_updn = rng.choice((0, 1, 3))
@@ -293,8 +294,11 @@ def _internal_ok(h, model):
 def run_synth(case, out):
     size, policy = case["size"], case["policy"]
     Heap = B.heap_mod.Heap
+    # the policy string is built at run time (as it would be when it comes from a file or the
+    # command line): equal to "min"/"max" but not the interned literal
+    policy = "".join(list(policy))
     if case.get("ctor_policy"):
-        h = lib_call("Heap()", Heap, size, case["ctor_policy"])
+        h = lib_call("Heap()", Heap, size, "".join(list(case["ctor_policy"])))
         h.policy = policy
         bump(out.probes, "policy_set_through_property")
     else:
@@ -367,7 +371,7 @@ def run_synth(case, out):
             # an empty heap is re-used under the other policy
             if m.queued or op[1] not in ("min", "max") or op[1] == m.policy:
                 continue
-            h.policy = op[1]
+            h.policy = "".join(list(op[1]))
             m.policy = op[1]
             policy = op[1]
             bump(out.probes, "policy_switched_on_empty_heap")
@@ -427,7 +431,7 @@ def run_synth(case, out):
 
 def run_duo(case, out):
     Heap = B.heap_mod.Heap
-    hs = [lib_call("Heap()", Heap, h["size"], h["policy"]) for h in case["heaps"]]
+    hs = [lib_call("Heap()", Heap, h["size"], "".join(list(h["policy"]))) for h in case["heaps"]]
     ms = [PQModel(h["size"], h["policy"]) for h in case["heaps"]]
     log = EventLog()
     norm = []
